@@ -238,9 +238,15 @@ def run(ctx):
                 "re-executed for every controlled run) under the deterministic scheduler; inputs of 0-6 elements (lists and iterators), "
                 "chunk sizes 1-7, 1-3 workers incl. more workers than chunks and work queues smaller than the number of workers, "
                 "sequences of calls; schedules by preemption-bounded DFS + random/PCT walks; each execution validated by TLC against "
-                "PoolObs.tla (results + termination). distinct = distinct (scenario, schedule) executions")
+                "PoolObs.tla (results + termination). FunctorMap.tla (every action = one visible operation of the code; pipe capacity of "
+                "multiprocessing.Queue modelled) is model-checked exhaustively (order, completeness, clean end, deadlock freedom, "
+                "termination; negative controls join-before-collect and a shared reorder buffer) and bound to the code step by step in "
+                "both directions. distinct = distinct (scenario, schedule) executions")
     ctx.assumptions += ["shim fidelity: documented blocking semantics of multiprocessing.Queue / Process", "bounded exploration of schedules"]
     rnd = random.Random(ctx.seed * 7919 + 5)
+    # design level: the implementation-shaped model (every action = one visible operation), exhaustively, with negative controls
+    from adapters import mapconf
+    mapconf.design_legs(ctx, quick)
     real_leg(ctx, quick, rnd)
     h = Harness()
     scens = scenarios(rnd, quick)
@@ -252,6 +258,13 @@ def run(ctx):
         ctx.note("controlled execution not possible (%r); only the real-process leg ran" % (pexc,))
         ctx.extra["controlled_legs"] = "not-run"
         return
+    # the model is bound to the code step by step, in both directions (evidence only, never an alarm)
+    try:
+        mapconf.conformance(ctx, h, random.Random(ctx.seed * 7919 + 51), quick, JUDGE)
+    except tlc.MachineryError:
+        raise
+    except Exception as e:
+        ctx.extra["conformance_with_FunctorMap_tla"] = {"status": "not-run", "why": "%s: %s" % (type(e).__name__, str(e)[:200])}
     worlds, ws = poolsim.explore_all(h, scens, ctx.seed * 7919 + 5, 400 if quick else 15000, ctx)
     steps = sum(w.steps for w in worlds)
     outcomes = {}
